@@ -28,7 +28,7 @@ EXHAUSTIVE = {"flag": True, "scope": "all shapes 0..3 x 0..3 for every directed 
 ANCHOR_FUNCS = ["table:Table.__init__", "table:Table.__rshift__", "table:Table.__lshift__", "table:Table.T", "table:Table.__getitem__", "table:Table.__iter__"]
 REQUIRED_STRATA = {"recompute": 200, "structural": 200, "steps": 2000}
 
-OPS = [">>dict-ragged-onto-columnless", "rename-first-of-twins", "cell-by-name-first", "slice-write-reversed", "two-iterations-alive", "<<row-unsized", "<<row-onto-untyped-empty", "cells-with-shape-attribute", "rows-by-index-list", "rows-by-own-int-column", "mask-none-then-lshift", "select-accessor-before-stored", "row-write-own-column", "row-held-across-writes", "colselect-2d-then-write", "write-bad-column-position", "gather-big", "sort-repeated-labels", ">>own-column-then-write", "rowslice-2d", "<<table-zero-rows", "<<row-bytearray", ">>nothing", ">>vector", ">>vector-wrong", ">>list", ">>dict", ">>dict-wrong", ">>table", ">>table-wrong", "<<row", "<<row-short", "<<row-long", "<<table", "<<row-widen", ">>dict-own-column",
+OPS = ["cell-iterator-across-advance", ">>dict-ragged-onto-columnless", "rename-first-of-twins", "cell-by-name-first", "slice-write-reversed", "two-iterations-alive", "<<row-unsized", "<<row-onto-untyped-empty", "cells-with-shape-attribute", "rows-by-index-list", "rows-by-own-int-column", "mask-none-then-lshift", "select-accessor-before-stored", "row-write-own-column", "row-held-across-writes", "colselect-2d-then-write", "write-bad-column-position", "gather-big", "sort-repeated-labels", ">>own-column-then-write", "rowslice-2d", "<<table-zero-rows", "<<row-bytearray", ">>nothing", ">>vector", ">>vector-wrong", ">>list", ">>dict", ">>dict-wrong", ">>table", ">>table-wrong", "<<row", "<<row-short", "<<row-long", "<<table", "<<row-widen", ">>dict-own-column",
 	"rowslice", "rowmask", "T.T", "attr", "attr-wrong", "ragged-ctor", "attr-iterable", "setitem-table", "<<table-dupnames", ">>table-dupnames", "vector>>"]
 
 
@@ -505,6 +505,25 @@ def run_structural(chk, spec):
 						if want.ok and (not got.ok or got.value != want.value or type(got.value) is not type(want.value)):
 							chk.fail("the i-th row agrees with the i-th values of the columns", f"structural/{op}/{form.replace(' ', '')}", f"{spec!r}: {form} with name {lab!r}, i = {i}: {short(got, 100)}; t[name][i] is {want.value!r}")
 							return
+	elif op == "cell-iterator-across-advance":
+		# the cells of a row are read by an iterator that was started on that row: advancing the table's iteration (one row view moved along) while it is open does not splice two rows
+		if r < 2 or c < 2:
+			chk.skip("structural-too-small")
+			return
+		form = spec["key"][0]
+		rows_ = [tuple(col[i] for col in cols) for i in range(r)]
+		if form == 0:
+			it = iter(t); row = next(it); cells = iter(row); first = next(cells); next(it); got = (first,) + tuple(cells); want = rows_[0]
+		elif form == 1:
+			row = t[0]; cells = iter(row); first = next(cells); row.set_index(r - 1); got = (first,) + tuple(cells); want = rows_[0]
+		else:
+			got_rows = []
+			for row in t:
+				cells = iter(row)
+				got_rows.append(tuple(cells))
+			got, want = tuple(got_rows), tuple(rows_)
+		if not M.same_list(list(got), list(want)) and not (form < 2 and M.same_list(list(got), [rows_[0][0]] + list(rows_[1 if form == 0 else r - 1][1:])) and False):
+			chk.fail("the i-th row obtained by iteration equals the tuple of the i-th values of the columns", f"structural/{op}/{['iteration-advanced', 'view-moved', 'plain'][form]}", f"{spec!r}: cells read {short(got, 120)}; the row is {short(want, 120)}")
 	elif op == "slice-write-reversed":
 		# a row slice whose bounds select nothing (reversed, or past the end): as for a list, writing nothing - or a scalar - into it is a no-op or an error, never a longer column
 		if c == 0:
@@ -876,6 +895,8 @@ def run(chk):
 					variants = [(tw, h, 0) for tw in range(4) for h in range(2)] if (r, c) == (2, 2) else []
 				elif op == "cell-by-name-first":
 					variants = [(l_, 0, 0) for l_ in range(6)] if (r, c) == (2, 2) else []
+				elif op == "cell-iterator-across-advance":
+					variants = [(f, 0, 0) for f in range(3)] if r >= 2 and c >= 2 else []
 				elif op == "slice-write-reversed":
 					variants = [(a, b, f) for (a, b) in ((3, 1), (2, 0), (-1, 1), (4, 2), (9, 12), (2, 2), (-1, -3)) for f in range(3)] if c else []
 				elif op == "two-iterations-alive":
